@@ -125,23 +125,22 @@ Definition dyn_convert (cfg : config F) (number : F) (src : dyntype F) (target_n
             match r2 with
             | None => Ok None
             | Some n2 =>
-              (* first unit, in (group, index) order, whose names contain the target name *)
-              let fix search (gs : list (str * list (N * dyntype F))) : res (option (F * dyntype F)) :=
-                match gs with
-                | [] => Ok None
-                | (_, g) :: rest =>
-                  match find_by_name target_name (map snd g) with
-                  | Some tgt =>
-                    match nassoc target_index g with
-                    | None => Ok None
-                    | Some src2 =>
-                      do r3 <- calculate_unit cfg n2 src2 tgt g;
-                      Ok (option_map (fun x => (x, tgt)) r3)
-                    end
-                  | None => search rest
+              (* only the family on the other side of the conversion entry can hold the target *)
+              let other := if is_src then tc_tgt_name tc else tc_src_name tc in
+              match assoc other (cf_types cfg) with
+              | None => Ok None
+              | Some g =>
+                match find_by_name target_name (map snd g) with
+                | Some tgt =>
+                  match nassoc target_index g with
+                  | None => Ok None
+                  | Some src2 =>
+                    do r3 <- calculate_unit cfg n2 src2 tgt g;
+                    Ok (option_map (fun x => (x, tgt)) r3)
                   end
-                end in
-              search (cf_types cfg)
+                | None => Ok None
+                end
+              end
             end
           end
         end
